@@ -65,7 +65,7 @@ ASSUMPTIONS = [
     "ModelTrainer gives the *Dataset classes the label-derived max size while the chunk functions prefer the configured "
     "value, so the frameworks would size-match to different targets; here both get the same target",
     "48x64 frames, 3-node chain skeleton, <= 2 animals per frame, 2 frames (thorough: also 3 frames over 5 types); "
-    "scales {1, 0.5} (thorough adds 0.75); one video per label set",
+    "scales {1, 0.5} (thorough adds 0.75); one video per label set except in the multi-video sets above",
 ]
 MIN_OUTCOMES = 50
 
